@@ -26,7 +26,7 @@ ENGINE = {
                 props=["M_C06"], mon="C06"),
     "C07": dict(pols={"fifo", "lru"}, limits={0, 1, 2}, ttls={0, 2}, maxmems={0, 3}, weights={"none"},
                 props=["M_C07"], mon="C07"),
-    "C08": dict(pols={"lfu", "arc", "tlru"}, limits={0, 2}, ttls={0, 2}, maxmems={0, 3},
+    "C08": dict(pols={"lfu", "arc", "tlru"}, limits={0, 2}, ttls={0, 3}, maxmems={0, 3},
                 weights={"none", "0.3", "1.5"}, props=["M_C08"], mon="C08"),
     "C16": dict(pols=ALL_POL, limits={1, 2}, ttls={0, 1}, maxmems={0, 3}, weights={"none", "3"},
                 props=["M_C16"], mon="C16"),
